@@ -101,7 +101,7 @@ theorem inProgressOther_solo' (xid : Nat) (active : List Nat) (hsolo : ∀ x ∈
 /-- `scanConflict` when the outcome of `keyMatches` is known for every scanned row -/
 theorem exec_scanConflict_gen (t : Table) (idx : UniqueIdx) (key : List Value) (ex : Option Nat) (lv : View) (xid : Nat)
     (active : List Nat) (hsolo : ∀ x ∈ active, x = xid) (s : St) (km : Ver → Bool) (rows : List Ver)
-    (hkm : ∀ r ∈ rows, r.visible lv = true → (keyMatches t idx key r).exec s = (.ok (km r), s)) :
+    (hkm : ∀ r ∈ rows, r.visible lv = true → (some r.rid == ex) = false → (keyMatches t idx key r).exec s = (.ok (km r), s)) :
     (scanConflict t idx key ex lv xid active rows).exec s =
       (.ok (rows.find? (fun r => !(some r.rid == ex) && (r.visible lv && km r))), s) := by
   induction rows with
@@ -116,7 +116,7 @@ theorem exec_scanConflict_gen (t : Table) (idx : UniqueIdx) (key : List Value) (
       simp only [h1', Bool.false_eq_true, if_false, Bool.not_false, Bool.true_and]
       cases hv : r.visible lv
       · simp [ih']
-      · simp only [Bool.not_true, Bool.false_eq_true, if_false, exec_bind, hkm r (by simp) hv, Bool.true_and]
+      · simp only [Bool.not_true, Bool.false_eq_true, if_false, exec_bind, hkm r (by simp) hv h1', Bool.true_and]
         cases hk : km r
         · simp [ih']
         · simp
